@@ -133,6 +133,8 @@ class MoreInfoFromHeaderMixin:
             return None
 
         try:
-            return URL(url=referrer)
-        except ValueError:  # e.g. "http://["
+            url = URL(url=referrer)
+            url.port  # a malformed port only shows when it is read
+            return url
+        except ValueError:  # e.g. "http://[", "http://host:x/"
             return None
